@@ -42,14 +42,16 @@ Theorem C01_val_implies_ana_refuted :
   (* apply only has to have ONE child *)
   /\ gap w_apply_without_operand S_NodeNull
   (* the children of degree / logbase / bvar are never visited by the arity pass *)
-  /\ gap w_unvalidated_degree S_EqnNotPrintable /\ gap w_unvalidated_bvar S_ChildNodeOfEmpty.
+  /\ gap w_unvalidated_degree S_EqnNotPrintable /\ gap w_unvalidated_bvar S_ChildNodeOfEmpty
+  /\ gap w_ci_empty_in_bvar S_CiNoChild /\ gap w_cn_empty_in_degree S_CnNoChild /\ gap w_cn_sep_in_degree S_CnSepChain.
 Proof.
   repeat split;
     first [ apply MathProofs.gap_min_no_operand | apply MathProofs.gap_max_no_operand | apply MathProofs.gap_rem_no_operand
           | apply MathProofs.gap_min_one_operand | apply MathProofs.gap_diff_non_ci | apply MathProofs.gap_bare_ci
           | apply MathProofs.gap_not_equation_min | apply MathProofs.gap_empty_piecewise | apply MathProofs.gap_ci_comment_first
           | apply MathProofs.gap_apply_without_operand | apply MathProofs.gap_unvalidated_degree
-          | apply MathProofs.gap_unvalidated_bvar ].
+          | apply MathProofs.gap_unvalidated_bvar | apply MathProofs.gap_ci_empty_in_bvar
+          | apply MathProofs.gap_cn_empty_in_degree | apply MathProofs.gap_cn_sep_in_degree ].
 Qed.
 Print Assumptions C01_val_implies_ana_refuted.
 
